@@ -1,6 +1,444 @@
-//! C14 thread engine (shuttle) - placeholder until implemented.
+//! C14 (and C13 under Miri): worker threads operating on disjoint mutable views of one map.
+//!
+//! One scenario generator, two thread engines:
+//!  - `std`     real `std::thread::scope` threads; meant to be executed under Miri, whose seeded
+//!              scheduler (`-Zmiri-many-seeds`, preemption) decides the interleaving and whose
+//!              data-race / aliasing detectors are the oracle for the `unsafe` code;
+//!  - `shuttle` (feature `threads`) shuttle threads; a scheduling point sits at every arena access
+//!              (hook H2) and seeded Random / PCT schedulers decide who runs; a failing schedule
+//!              is persisted and replayable.
+//! The functional oracle is the same in both: the final map equals the one obtained by applying
+//! the workers' scripts sequentially (they commute on disjoint views).
+
+use crate::ctx::{Abort, Ctx, Stats, Violation};
+use crate::exec::World;
+use crate::key::Key;
+use crate::ptypes::SimPrefix;
+use crate::script::*;
+use crate::sessions::{run_session, Exp};
+use crate::truth::{truth_of, Ent, Truth};
+use crate::val::Val;
+use prefix_trie::{AsViewMut, PrefixMap, TrieViewMut};
 use std::collections::BTreeMap;
-pub fn cmd_threads(_opts: &BTreeMap<String, String>) -> i32 {
-    eprintln!("threads: not implemented yet");
-    2
+use std::sync::Arc;
+
+#[derive(Clone, Copy, PartialEq, Eq, Debug)]
+pub enum Engine {
+    Std,
+    #[cfg(feature = "threads")]
+    Shuttle,
+}
+
+pub struct ScnOut {
+    pub workers: usize,
+    pub entries: usize,
+    pub stats: Stats,
+}
+
+fn new_ctx(prop: &str, salt: u64) -> Ctx {
+    Ctx { prop: prop.to_string(), step: 0, stats: Stats::default(), salt, fuel: 5_000_000, known_hits: vec![], known: Arc::new(vec![]), rare: 0, also: vec!["C13", "C14", "C01"] }
+}
+
+type WorkerResult = Result<(Key, Exp, Stats), Abort>;
+
+fn worker<P: SimPrefix>(view: TrieViewMut<'_, P, Val>, acts: &[MAct], t0: &Truth, engine: Engine, wi: usize) -> WorkerResult {
+    #[cfg(feature = "threads")]
+    if engine == Engine::Shuttle {
+        prefix_trie::verif_hooks::set_yield(Some(shuttle_yield));
+    }
+    let _ = engine;
+    let root = view.prefix().raw().key();
+    let mut ctx = new_ctx("C14", 0x77 + wi as u64);
+    let r = run_session(&mut ctx, None, 0, view, t0, acts);
+    r.map(|(exp, _, _)| (root, exp, ctx.stats))
+}
+
+#[cfg(feature = "threads")]
+static YIELDS: std::sync::atomic::AtomicU64 = std::sync::atomic::AtomicU64::new(0);
+
+#[cfg(feature = "threads")]
+fn shuttle_yield() {
+    YIELDS.fetch_add(1, std::sync::atomic::Ordering::Relaxed);
+    // sleep(0), not yield_now: under PCT a yield only lowers the priority once
+    shuttle::thread::sleep(std::time::Duration::from_nanos(0));
+}
+
+pub fn exec_scn(scn: &ThreadScn, engine: Engine) -> Result<ScnOut, Violation> {
+    crate::with_ptype!(scn.script.cfg.ptype, exec_scn_typed(scn, engine))
+}
+
+fn exec_scn_typed<P: SimPrefix>(scn: &ThreadScn, engine: Engine) -> Result<ScnOut, Violation> {
+    crate::val::reset_registry();
+    prefix_trie::verif_hooks::set_fuel(u64::MAX);
+    prefix_trie::verif_hooks::set_yield(None);
+    let viol = |sig: String, detail: String| Violation { property: "C14".into(), sig, step: 0, detail };
+    let to_v = |a: Abort| match a {
+        Abort::Violation(v) => viol(format!("C14:threads:{}", v.sig), format!("[{}] {}", v.property, v.detail)),
+        Abort::Foreign(s) => viol(format!("C14:threads:foreign:{s}"), s),
+    };
+    // 1. build-up on one thread
+    let mut ctx = new_ctx("C14", scn.script.seed);
+    let mut w: World<P> = World::new(&scn.script.cfg);
+    for (i, st) in scn.script.steps.iter().enumerate() {
+        ctx.step = i;
+        w.exec(&mut ctx, st).map_err(to_v)?;
+        w.truths = w.all_truths();
+    }
+    let t0 = w.truths[0].clone();
+    let mut real: PrefixMap<P, Val> = std::mem::take(&mut w.maps[0].real);
+    // declared after the containers: on unwind the scheduling hook is removed before they drop
+    struct YieldGuard;
+    impl Drop for YieldGuard {
+        fn drop(&mut self) {
+            prefix_trie::verif_hooks::set_yield(None);
+        }
+    }
+    let _guard = YieldGuard;
+    let mut stats = ctx.stats;
+    let nworkers;
+    let merged: BTreeMap<Key, (crate::key::Raw, u64)>;
+    {
+        // 2. cut the whole-map view into disjoint views
+        let mut pool: Vec<TrieViewMut<'_, P, Val>> = vec![(&mut real).view_mut()];
+        for c in &scn.cuts {
+            let n = pool.len();
+            if n == 0 {
+                break;
+            }
+            match c {
+                MAct::Split(i) => {
+                    let v = pool.swap_remove(*i as usize % n);
+                    let (l, r) = v.split();
+                    pool.extend(l);
+                    pool.extend(r);
+                }
+                MAct::Left(i) => {
+                    let v = pool.swap_remove(*i as usize % n);
+                    pool.push(v.left().unwrap_or_else(|o| o));
+                }
+                MAct::Right(i) => {
+                    let v = pool.swap_remove(*i as usize % n);
+                    pool.push(v.right().unwrap_or_else(|o| o));
+                }
+                MAct::Find(i, q) => {
+                    let v = pool.swap_remove(*i as usize % n);
+                    pool.push(v.find(P::make(*q)).unwrap_or_else(|o| o));
+                }
+                _ => {}
+            }
+        }
+        pool.truncate(scn.workers.len());
+        nworkers = pool.len();
+        // 3. one worker per view
+        let t0r = &t0;
+        let results: Vec<WorkerResult> = match engine {
+            Engine::Std => std::thread::scope(|s| {
+                let hs: Vec<_> = pool.into_iter().zip(scn.workers.iter()).enumerate().map(|(wi, (v, a))| s.spawn(move || worker(v, a, t0r, engine, wi))).collect();
+                hs.into_iter().map(|h| h.join().expect("worker thread panicked")).collect()
+            }),
+            #[cfg(feature = "threads")]
+            Engine::Shuttle => shuttle::thread::scope(|s| {
+                let hs: Vec<_> = pool.into_iter().zip(scn.workers.iter()).enumerate().map(|(wi, (v, a))| s.spawn(move || worker(v, a, t0r, engine, wi))).collect();
+                hs.into_iter().map(|h| h.join().expect("worker thread panicked")).collect()
+            }),
+        };
+        prefix_trie::verif_hooks::set_yield(None);
+        // 4. sequential model: every worker's expectation, restricted to its own view
+        let mut m: BTreeMap<Key, (crate::key::Raw, u64)> = t0.ents.iter().map(|e| (e.key, (e.raw, e.v))).collect();
+        let mut roots: Vec<Key> = vec![];
+        for r in results {
+            let (root, exp, st) = r.map_err(to_v)?;
+            stats.merge(&st);
+            for other in &roots {
+                if other.covers(root) || root.covers(*other) {
+                    return Err(viol("C14:threads:views-overlap".into(), format!("two workers were handed overlapping mutable views: {other} and {root}")));
+                }
+            }
+            roots.push(root);
+            m.retain(|k, _| !root.covers(*k));
+            for (k, x) in exp {
+                if root.covers(k) {
+                    m.insert(k, x);
+                }
+            }
+        }
+        merged = m;
+    }
+    // 5. the final map equals the sequential outcome
+    let t1 = truth_of(&real.verif_snapshot());
+    let exp: Vec<Ent> = merged.iter().map(|(k, x)| Ent { key: *k, raw: x.0, v: x.1 }).collect();
+    let core = |v: &[Ent]| v.iter().map(|e| (e.key, e.v)).collect::<Vec<_>>();
+    if core(&t1.ents) != core(&exp) {
+        return Err(viol("C14:threads:final-map-differs-from-sequential".into(), format!("after {nworkers} workers on disjoint views: entries {:?}, sequential application gives {:?}", t1.ents, exp)));
+    }
+    if real.len() != t1.ents.len() {
+        return Err(viol("C14:threads:len-after-concurrent-mutation".into(), format!("after {nworkers} workers: len() = {} but {} entries are stored", real.len(), t1.ents.len())));
+    }
+    let shape = |t: &Truth| t.nodes.iter().map(|n| (n.raw.key(), n.left, n.right)).collect::<Vec<_>>();
+    if shape(&t0) != shape(&t1) {
+        return Err(viol("C14:threads:shape-changed".into(), "operations through mutable views changed the tree shape".into()));
+    }
+    drop(real);
+    drop(w);
+    Ok(ScnOut { workers: nworkers, entries: t1.ents.len(), stats })
+}
+
+/// `sim miri --seed S --from A --to B`: scenarios A..B on real threads (run this under Miri)
+pub fn cmd_std(opts: &BTreeMap<String, String>) -> i32 {
+    let seed: u64 = opts.get("seed").and_then(|s| s.parse().ok()).unwrap_or(20260927);
+    let from: u64 = opts.get("from").and_then(|s| s.parse().ok()).unwrap_or(0);
+    let to: u64 = opts.get("to").and_then(|s| s.parse().ok()).unwrap_or(4);
+    let small = !opts.contains_key("large");
+    crate::ctx::set_quiet(true);
+    let mut workers = 0;
+    let mut multi = 0;
+    let only: Option<Vec<u64>> = opts.get("only").map(|s| s.split(',').filter_map(|x| x.parse().ok()).collect());
+    if opts.contains_key("list") {
+        // native pre-pass: print the indices of the scenarios with >= 2 workers and >= 2 entries
+        let want: usize = opts.get("list").and_then(|s| s.parse().ok()).unwrap_or(8);
+        let mut out = vec![];
+        let mut idx = from;
+        while out.len() < want && idx < from + 100_000 {
+            let scn = gen_thread_scn(seed, idx, small);
+            if let Ok(o) = exec_scn(&scn, Engine::Std) {
+                if o.workers >= 2 && o.entries >= 3 {
+                    out.push(idx.to_string());
+                }
+            }
+            idx += 1;
+        }
+        println!("{}", out.join(","));
+        return 0;
+    }
+    let list: Vec<u64> = only.unwrap_or_else(|| (from..to).collect());
+    let (from, to) = (list.first().copied().unwrap_or(0), list.last().copied().unwrap_or(0));
+    for idx in list.iter().copied() {
+        let scn = gen_thread_scn(seed, idx, small);
+        match exec_scn(&scn, Engine::Std) {
+            Ok(o) => {
+                workers += o.workers;
+                if o.workers >= 2 && o.entries >= 2 {
+                    multi += 1;
+                }
+            }
+            Err(v) => {
+                println!("threads(std): violation sig={} scenario={idx} :: {}", v.sig, v.detail);
+                println!("THREADS-VIOLATION seed={seed} scenario={idx} sig={}", v.sig);
+                return 1;
+            }
+        }
+    }
+    println!("threads(std): scenarios {from}..{to} ok, {workers} workers, {multi} scenarios with >=2 workers and >=2 entries");
+    0
+}
+
+#[cfg(feature = "threads")]
+pub fn cmd_threads(opts: &BTreeMap<String, String>) -> i32 {
+    use shuttle::scheduler::{PctScheduler, RandomScheduler, ReplayScheduler};
+    use shuttle::{Config, FailurePersistence, Runner};
+    let seed: u64 = opts.get("seed").cloned().or_else(|| std::env::var("VERIF_SEED").ok()).and_then(|s| s.parse().ok()).unwrap_or(20260927);
+    let thorough = opts.get("tier").map(|t| t == "thorough").unwrap_or(false);
+    let nscn: u64 = opts.get("scenarios").and_then(|s| s.parse().ok()).unwrap_or(if thorough { 400 } else { 48 });
+    let n_rand: usize = opts.get("random").and_then(|s| s.parse().ok()).unwrap_or(if thorough { 400 } else { 60 });
+    let n_pct: usize = opts.get("pct").and_then(|s| s.parse().ok()).unwrap_or(if thorough { 200 } else { 30 });
+    let out_dir = opts.get("out").cloned().unwrap_or_else(|| "/verif/replays".into());
+    let evidence = opts.get("evidence").cloned();
+    let t0 = std::time::Instant::now();
+    crate::ctx::set_quiet(true);
+    let _ = std::fs::create_dir_all(&out_dir);
+    // replay mode
+    if let Some(file) = opts.get("replay") {
+        let txt = std::fs::read_to_string(file).expect("read replay file");
+        let rf: serde_json::Value = serde_json::from_str(&txt).expect("parse replay file");
+        let scn: ThreadScn = serde_json::from_value(rf["scenario"].clone()).expect("scenario");
+        let sched = rf["schedule"].as_str().unwrap_or("").to_string();
+        let failed: Arc<std::sync::Mutex<Option<Violation>>> = Arc::new(std::sync::Mutex::new(None));
+        let f2 = failed.clone();
+        let scn2 = Arc::new(scn);
+        let mut cfg = Config::new();
+        cfg.stack_size = 1 << 21;
+        cfg.failure_persistence = FailurePersistence::None;
+        let r = std::panic::catch_unwind(std::panic::AssertUnwindSafe(|| {
+            Runner::new(ReplayScheduler::new_from_encoded(&sched), cfg).run(move || {
+                if let Err(v) = exec_scn(&scn2, Engine::Shuttle) {
+                    *f2.lock().unwrap() = Some(v);
+                    panic!("violation");
+                }
+            });
+        }));
+        let v = failed.lock().unwrap().clone();
+        return match (r, v) {
+            (_, Some(v)) => {
+                println!("replay: violation sig={} :: {}", v.sig, v.detail);
+                println!("VIOLATION property=C14 replay={file}");
+                1
+            }
+            (Ok(()), None) => {
+                println!("replay: no violation");
+                0
+            }
+            (Err(_), None) => {
+                println!("replay: the schedule could not be replayed (harness error)");
+                2
+            }
+        };
+    }
+    let mut schedules = 0u64;
+    let mut scen_multi = 0u64;
+    let mut stats = Stats::default();
+    let threads: usize = opts.get("threads").and_then(|s| s.parse().ok()).unwrap_or(16);
+    // scenarios are distributed over OS threads; inside one scenario shuttle owns the schedule
+    let results: Vec<(u64, u64, bool, Option<(Violation, String, ThreadScn)>, Stats)> = std::thread::scope(|s| {
+        let hs: Vec<_> = (0..threads)
+            .map(|tid| {
+                let out_dir = out_dir.clone();
+                s.spawn(move || {
+                    crate::ctx::set_quiet(true);
+                    let mut res = vec![];
+                    let mut idx = tid as u64;
+                    while idx < nscn {
+                        let scn = Arc::new(gen_thread_scn(seed, idx, false));
+                        // dry run on real threads: scenarios that end up with a single worker have
+                        // no interleaving to explore (and PCT refuses them)
+                        let multi = match exec_scn(&scn, Engine::Std) {
+                            Ok(o) => o.workers >= 2,
+                            Err(v) => {
+                                res.push((idx, 0, false, Some((v, String::new(), (*scn).clone())), Stats::default()));
+                                break;
+                            }
+                        };
+                        if !multi {
+                            res.push((idx, 0, false, None, Stats::default()));
+                            idx += threads as u64;
+                            continue;
+                        }
+                        let mut done = 0u64;
+                        let mut found = None;
+                        let st_acc: Arc<std::sync::Mutex<Stats>> = Arc::new(std::sync::Mutex::new(Stats::default()));
+                        for (kind, iters) in [("random", n_rand), ("pct", n_pct)] {
+                            if iters == 0 {
+                                continue;
+                            }
+                            let failed: Arc<std::sync::Mutex<Option<Violation>>> = Arc::new(std::sync::Mutex::new(None));
+                            let (f2, scn2, st2) = (failed.clone(), scn.clone(), st_acc.clone());
+                            let dir = format!("{out_dir}/.shuttle-{seed}-{idx}-{kind}");
+                            let _ = std::fs::create_dir_all(&dir);
+                            let mut cfg = Config::new();
+                            cfg.stack_size = 1 << 21;
+                            cfg.failure_persistence = FailurePersistence::File(Some(dir.clone().into()));
+                            cfg.silence_warnings = true;
+                            let sseed = crate::rng::mix64(seed ^ idx.wrapping_mul(0x9E37_79B9));
+                            let body = move || match exec_scn(&scn2, Engine::Shuttle) {
+                                Ok(o) => {
+                                    let mut g = st2.lock().unwrap();
+                                    if g.steps == 0 {
+                                        g.merge(&o.stats);
+                                        g.steps = 1;
+                                    }
+                                }
+                                Err(v) => {
+                                    *f2.lock().unwrap() = Some(v);
+                                    panic!("violation");
+                                }
+                            };
+                            let r = std::panic::catch_unwind(std::panic::AssertUnwindSafe(|| {
+                                if kind == "random" {
+                                    Runner::new(RandomScheduler::new_from_seed(sseed, iters), cfg).run(body);
+                                } else {
+                                    Runner::new(PctScheduler::new_from_seed(sseed, 3, iters), cfg).run(body);
+                                }
+                            }));
+                            let v = failed.lock().unwrap().clone();
+                            if r.is_err() || v.is_some() {
+                                // pick up the persisted schedule
+                                let mut sched = String::new();
+                                if let Ok(rd) = std::fs::read_dir(&dir) {
+                                    for e in rd.flatten() {
+                                        if let Ok(t) = std::fs::read_to_string(e.path()) {
+                                            sched = t.trim().to_string();
+                                        }
+                                    }
+                                }
+                                let v = v.unwrap_or_else(|| Violation { property: "C14".into(), sig: "C14:threads:panic-under-shuttle".into(), step: 0, detail: format!("{:?}", crate::ctx::take_last_panic()) });
+                                found = Some((v, sched, (*scn).clone()));
+                                let _ = std::fs::remove_dir_all(&dir);
+                                break;
+                            }
+                            let _ = std::fs::remove_dir_all(&dir);
+                            done += iters as u64;
+                        }
+                        let st = st_acc.lock().unwrap().clone();
+                        let stop = found.is_some();
+                        res.push((idx, done, multi, found, st));
+                        if stop {
+                            break;
+                        }
+                        idx += threads as u64;
+                    }
+                    res
+                })
+            })
+            .collect();
+        hs.into_iter().flat_map(|h| h.join().expect("scenario thread")).collect()
+    });
+    let mut first: Option<(u64, Violation, String, ThreadScn)> = None;
+    let mut scen = 0u64;
+    for (idx, done, multi, found, st) in results {
+        scen += 1;
+        schedules += done;
+        if multi {
+            scen_multi += 1;
+        }
+        stats.merge(&st);
+        if let Some((v, s, scn)) = found {
+            if first.as_ref().map(|f| idx < f.0).unwrap_or(true) {
+                first = Some((idx, v, s, scn));
+            }
+        }
+    }
+    let mut code = 0;
+    let mut vinfo = serde_json::Value::Null;
+    if let Some((idx, v, sched, scn)) = first {
+        let path = format!("{out_dir}/C14-{seed}-{idx}.shuttle");
+        let rf = serde_json::json!({"property": "C14", "signature": v.sig, "detail": v.detail, "engine": "shuttle", "schedule": sched, "scenario": scn});
+        std::fs::write(&path, serde_json::to_string_pretty(&rf).unwrap()).expect("write replay");
+        println!("violation: {} in scenario {idx}: {}", v.sig, v.detail.chars().take(500).collect::<String>());
+        // confirm in a fresh process
+        let exe = std::env::current_exe().expect("exe");
+        let out = std::process::Command::new(exe).arg("threads").arg("--replay").arg(&path).output();
+        let confirmed = matches!(&out, Ok(o) if o.status.code() == Some(1));
+        println!("replay of the persisted schedule confirmed in a fresh process: {confirmed}");
+        if confirmed {
+            println!("VIOLATION property=C14 replay={path}");
+            code = 1;
+        } else {
+            eprintln!("threads: harness error: persisted schedule did not reproduce");
+            code = 2;
+        }
+        vinfo = serde_json::json!({"signature": v.sig, "scenario": idx, "replay": path, "confirmed": confirmed});
+    }
+    let wall = t0.elapsed().as_secs_f64();
+    println!("threads(shuttle): {scen} scenarios ({scen_multi} with >=2 workers), {schedules} schedules, {} scheduling points, {wall:.1}s", YIELDS.load(std::sync::atomic::Ordering::Relaxed));
+    if let Some(ev) = evidence {
+        let counters: BTreeMap<String, u64> = stats.counters.iter().map(|(k, v)| (k.to_string(), *v)).collect();
+        let e = serde_json::json!({
+            "engine": "shuttle 0.9.3 (seeded RandomScheduler + PctScheduler depth 3); scheduling point at every arena access (hook H2)",
+            "wall_s": wall,
+            "violations": if code == 1 { 1 } else { 0 },
+            "coverage": {
+                "evaluations": schedules,
+                "distinct_nontrivial": scen_multi,
+                "rule": "one evaluation = one schedule of one scenario (map + 2-4 workers on disjoint mutable views); distinct non-trivial = distinct scenarios with >= 2 workers (schedules of one scenario are drawn from seeded schedulers and not de-duplicated, so they are not counted as distinct)",
+                "scenarios": scen,
+                "schedules": schedules,
+                "random_schedules_per_scenario": n_rand,
+                "pct_schedules_per_scenario": n_pct,
+                "fault_kinds_fired": {"preempt (scheduling point offered to the scheduler at an arena access)": YIELDS.load(std::sync::atomic::Ordering::Relaxed)},
+                "probes_first_schedule_of_each_scenario": counters,
+                "violation": vinfo,
+            }
+        });
+        std::fs::write(ev, serde_json::to_string_pretty(&e).unwrap()).expect("write evidence");
+    }
+    code
 }
